@@ -14,7 +14,10 @@ from `init` to a state in which the consumer has seen the end of the stream.
    against the state (the batch a worker says it received IS the head of the channel, the line it
    classified IS the next line of its batch and the class is the model's class, …).  Events that are not
    transitions (`rs so sb st sn sc re cw ws wt se`) are stuttering steps with a guard on the local state
-   of their goroutine.  The only internal transition the log does not see is `wskip` (a worker whose
+   of their goroutine.  `sc` (entry of `stopFileReading`) is recorded per source (`PSt.stopped`): the deferred exit
+   block of a reader is `<-sema; out.stopFileReading(name); wg.Done()`, so when `wg.Wait()` has returned (`cw`)
+   every reader has logged its `sc` – `cw` is only possible then (the order of /repo 7025f4b; with the older order
+   `wg.Done(); stopFileReading` a `cw` could overtake an `sc`).  The only internal transition the log does not see is `wskip` (a worker whose
    batch produced no match goes back to the receive): it is inserted before that worker's next
    `wr`/`wx`.
 3. `machine`/`lin`: instance of the generic check of `C01C05TraceOrder` (admissible reordering + strict
@@ -28,7 +31,8 @@ Event codes (src = source index, g ↦ worker index by order of first appearance
 `aq i` semaphore acquired for source i (spawner) · `rs i` reader goroutine started · `so i` startFileReading ·
 `se` incErrors · `sb i batch autoflush` batching loop entered · `fl/fe i start n` about to send a batch
 (in-loop / remainder) · `st i start n` that send returned · `sn i` batching loop left · `rl i` about to release
-the semaphore (+ wg.Done) · `sc i` stopFileReading · `re i` reader goroutine ends · `cw` wg.Wait returned ·
+the semaphore (`<-sema`, then stopFileReading, then wg.Done) · `sc i` stopFileReading entered · `re i` reader
+goroutine ends (after wg.Done) · `cw` wg.Wait returned ·
 `cc` about to close the batch channel · `ws` worker started · `wr i start n` worker received a batch ·
 `lm/li/lu i num` line classified matched/ignored/unmatched · `wc m r` counters matchedLines/readLines read before a send · `wd i num n` about to send a match batch ·
 `wt` that send returned · `wx` worker saw the closed channel · `rc` about to close readChan ·
@@ -130,6 +134,8 @@ structure PSt where
   errs : Nat
   /-- C05 only: lines of the batch the consumer has received and not yet sampled -/
   pend : List Line
+  /-- sources whose reader goroutine has logged `sc` (entered `stopFileReading`) -/
+  stopped : List Nat := []
 
 /-! ### Batches: derived from the logged flushes, reproduced by the batching-loop model -/
 
@@ -216,9 +222,9 @@ def evLabels (cfg : Cfg) (wg : List Nat) (ps : PSt) (e : Ev) : Option (List Labe
     | some (.active []) => if cfg.files then some [] else some [.finish i]
     | _ => none
   | "rl" => if cfg.files then some [.finish i] else none
-  | "sc" => if srcDone s i then some [] else none
+  | "sc" => if srcDone s i && !ps.stopped.contains i then some [] else none
   | "re" => if srcDone s i then some [] else none
-  | "cw" => if s.srcs.all SrcSt.isDone then some [] else none
+  | "cw" => if s.srcs.all SrcSt.isDone && (List.range s.srcs.length).all ps.stopped.contains then some [] else none
   | "cc" => some [.closeC]
   | "ws" => if j < cfg.W then some [] else none
   | "wr" =>
@@ -268,7 +274,8 @@ def pstep (cfg : Cfg) (wg : List Nat) (ps : PSt) (e : Ev) : Option PSt :=
         | "mr" => (match ps.lts.rc with | m :: _ => m | [] => [])
         | "sa" => ps.pend.drop 1
         | _ => ps.pend
-      some { lts := s', errs := if e.kind = "se" then ps.errs + 1 else ps.errs, pend := pend }
+      some { lts := s', errs := if e.kind = "se" then ps.errs + 1 else ps.errs, pend := pend,
+             stopped := if e.kind = "sc" then e.src :: ps.stopped else ps.stopped }
 
 def machine (cfg : Cfg) (wg : List Nat) : Machine PSt :=
   { step := pstep cfg wg, final := fun ps => ps.lts.consDone && ps.pend.isEmpty }
